@@ -280,6 +280,43 @@ func (x *fnCtx) startAtHeader(st *State, fr *Frame, h *ssa.BasicBlock, ord int) 
 			}
 		}
 	}
+	// branch conditions on the way to the header: a conditional jump in a dominating block one
+	// of whose successors (entered only from that block) dominates the header was taken that way
+	for _, d := range domChain(h) {
+		if len(d.Instrs) == 0 {
+			continue
+		}
+		ifi, ok := d.Instrs[len(d.Instrs)-1].(*ssa.If)
+		if !ok || len(d.Succs) != 2 {
+			continue
+		}
+		for k, sblk := range d.Succs {
+			other := d.Succs[1-k]
+			if len(sblk.Preds) != 1 || sblk == other {
+				continue
+			}
+			if sblk == h || sblk.Dominates(h) {
+				func() {
+					defer func() {
+						if r := recover(); r != nil {
+							if _, isEng := r.(engineError); isEng {
+								return
+							}
+							panic(r)
+						}
+					}()
+					cv := x.getVal(st, fr, ifi.Cond)
+					if cv != nil && len(cv.L) == 1 && cv.L[0].Sort == SBool {
+						if k == 0 {
+							st.assume(cv.L[0])
+						} else {
+							st.assume(Not(cv.L[0]))
+						}
+					}
+				}()
+			}
+		}
+	}
 	for _, in := range h.Instrs {
 		phi, ok := in.(*ssa.Phi)
 		if !ok {
@@ -302,6 +339,54 @@ func (x *fnCtx) startAtHeader(st *State, fr *Frame, h *ssa.BasicBlock, ord int) 
 				st.ghost[td.As] = freshVal(t, "ghost."+x.short+"."+td.As, true)
 			}
 		}
+	}
+	// heap-independent conjuncts of the invariants of the enclosing loops still hold: they
+	// speak about values of the current outer iteration, which are immutable
+	for oi, ho := range x.hdrList {
+		if ho == h || !x.loopBlocks(ho)[h] {
+			continue
+		}
+		names2 := map[string]nameBind{}
+		for k, v := range fr.names {
+			names2[k] = v
+		}
+		func() {
+			defer func() {
+				if r := recover(); r != nil {
+					if _, isEng := r.(engineError); isEng {
+						return
+					}
+					panic(r)
+				}
+			}()
+			for _, in := range ho.Instrs {
+				phi, ok := in.(*ssa.Phi)
+				if !ok {
+					break
+				}
+				if phi.Comment != "" {
+					names2[phi.Comment] = nameBind{v: x.getVal(st, fr, phi)}
+				}
+			}
+			epochCounter++
+			pure := &Heap{m: map[string]*Term{}, epoch: epochCounter}
+			env2 := &specEnv{x: x, st: st, heap: pure, old: pure, names: names2, fr: fr}
+			for _, cl := range x.con.Clauses {
+				if cl.Kind != "invariant" || cl.Loop != oi+1 || !cl.appliesTo(x.eng.prop) {
+					continue
+				}
+				t, ok := x.tryEval(env2, cl.Expr)
+				if !ok {
+					continue
+				}
+				one := 1 << 20
+				for _, part := range splitGoal(t, &one) {
+					if !mentionsHeapSym(part) {
+						st.assume(part)
+					}
+				}
+			}
+		}()
 	}
 	// locks held at the header are described by invariants `held(...)`; assume invariants
 	env := &specEnv{x: x, st: st, heap: st.heap, old: fr.oldHeap, names: fr.names, fr: fr}
@@ -385,6 +470,20 @@ func (x *fnCtx) arriveAtHeader(st *State, fr *Frame, h, pred *ssa.BasicBlock, or
 		if cl.Kind == "step" && cl.Loop == ord && backEdge && cl.appliesTo(x.eng.prop) && st.from == fmt.Sprintf("loop %d", ord) {
 			g := x.evalClause(env, cl.Expr, cl.Text)
 			x.addVC(st, x.short, "step", ord, fmt.Sprintf("%d", cl.Ord), g, fmt.Sprintf("loop %d step relation: %s", ord, cl.Text), cl.Line)
+		}
+		if cl.Kind == "trace_step" && cl.Loop == ord && backEdge && cl.appliesTo(x.eng.prop) && st.from == fmt.Sprintf("loop %d", ord) && x.eng.cfg.Layers["trace"] {
+			// the events of one whole iteration (header to header) must match the pattern
+			ok, err := traceMatches(cl.Arg, st.trace)
+			if err != nil {
+				x.fail("bad trace pattern %q: %v", cl.Arg, err)
+			}
+			name := fmt.Sprintf("%d", cl.Ord)
+			if ok {
+				x.eng.noteTrivial(fmt.Sprintf("%s/%s/trace_step#%d.%s", x.eng.prop, x.short, ord, name), x.short, "trace_step", ord, cl.Text)
+			} else {
+				cond := x.evalClause(env, cl.Cond, cl.Text)
+				x.addVC(st, x.short, "trace_step", ord, name, Not(cond), fmt.Sprintf("events of one iteration of loop %d [%s] must match %s when %s", ord, strings.TrimSpace(traceString(st.trace)), cl.Arg, cl.Text), cl.Line)
+			}
 		}
 		if cl.Kind == "decreases" && cl.Loop == ord && backEdge {
 			if prev, ok := st.ghost[fmt.Sprintf("$variant%d", ord)]; ok {
@@ -789,4 +888,31 @@ func (x *fnCtx) invoke(st *State, fr *Frame, in ssa.Instruction, c *ssa.CallComm
 		res = x.havocVal(st, rt, "inv."+c.Method.Name())
 	}
 	k(st, res)
+}
+
+// mentionsHeapSym: the term reads some heap component (symbols named H....)
+func mentionsHeapSym(t *Term) bool {
+	seen := map[*Term]bool{}
+	var rec func(t *Term) bool
+	rec = func(t *Term) bool {
+		if seen[t] {
+			return false
+		}
+		seen[t] = true
+		if t.Kind == KSym && (strings.HasPrefix(t.Op, "H.") || strings.HasPrefix(t.Op, "lock0")) {
+			return true
+		}
+		for _, a := range t.Args {
+			if rec(a) {
+				return true
+			}
+		}
+		for _, p := range t.Pats {
+			if rec(p) {
+				return true
+			}
+		}
+		return false
+	}
+	return rec(t)
 }
